@@ -168,6 +168,35 @@ CLAIMED = {
         note="search on the real code; common arena model tied to both back ends by correspondence.",
         technique="cross-backend differential on the real code + correspondence with a common Lean model",
         design="6/C04"),
+    "C05": dict(
+        category="proof",
+        text="Lean theorems over H5.Model.Stream (model of HTMLUnicodeInputStream: readChunk with CR/lead-surrogate carry-over and the "
+             "read-on step, char, charsUntil, unget, position) for EVERY segmentation of the text into non-empty reads: C05_chars "
+             "(characters delivered = newline-normalised text, unconditional since fix 2906ffb), C05_chars_independent, C05_surrogates, "
+             "C05_position (line/column after k char() calls without unget), C05_charsUntil (longest accepted prefix), "
+             "C05_errors_count (number of invalid-codepoint errors independent of segmentation), C05_invalid_class (regex class = the "
+             "standard's definition for all code points, extracted class). Model tied by correspondence (ops stream, stream:drain, "
+             "stream:norm, bufstream) on str / text streams with arbitrarily short reads / byte streams (seekable or not) in every "
+             "certain encoding. Not proved (decided by search on the real code, recorded as findings where they fail): error POSITIONS "
+             "under chunking, positions after unget at a chunk start, short byte reads during BOM detection; BufferedStream is "
+             "modelled and tied but nothing is proved about it; codec decoding itself is trusted.",
+        note="proof for the character-delivery clauses; error-position clauses are search-level (known findings).",
+        technique="Lean 4 theorems over all read segmentations (induction over the segmentation) + correspondence with the real stream classes",
+        design="6/C05"),
+    "C06": dict(
+        category="proof",
+        text="Lean theorems over H5.Model.Encoding (detectBOM, override/transport/meta/parent/likely/default chain, changeEncoding, "
+             "the prescan EncodingBytes/EncodingParser/ContentAttrParser statement by statement): C06_precedence (the chain equals the "
+             "documented order for all inputs and arguments) with its clause corollaries, C06_bom_spec (detectBOM = the Encoding "
+             "Standard's BOM sniff for every byte string, since fixes 7aa7032/907ffcc), C06_certain (a certain encoding is never "
+             "changed by content), C06_late_meta_partial (late <meta>: restart/keep decision = the standard's, two excluded cases are "
+             "recorded findings with kernel witnesses), C06_prescan_terminates (fuel len+2 suffices for every byte string), ten "
+             "C06_witness_* theorems pinning the ten recorded prescan deviations. The prescan itself is compared with an independent "
+             "WHATWG reference (Spec.Sniff, parametrised by those deviations) by the harness, not by a theorem; codecs and the "
+             "webencodings label table are trusted/extracted.",
+        note="proof for precedence, BOM, certainty, termination; prescan-vs-WHATWG is differential (deviations recorded as findings).",
+        technique="Lean 4 theorems over the encoding-determination model + correspondence (ops enc:*) + differential against a WHATWG prescan reference",
+        design="6/C06"),
     "C12": dict(
         category="proof",
         text="Lean theorem C12_history over an abstract lifecycle model: for ANY history of calls on one object — completed or "
